@@ -4,6 +4,7 @@ import (
 	"encoding/json"
 
 	"ti/base"
+	ev "ti/eval"
 	me "ti/eval/method_evaluator"
 )
 
@@ -58,6 +59,11 @@ func init() {
 	}
 	ops["check_arg_type"] = func(r req) any {
 		return map[string]any{"err": me.VerifCheckArgType(r.ty("d"), r.ty("a"))}
+	}
+	ops["block_params"] = func(r req) any {
+		var s ev.VerifBlockParametersSpec
+		json.Unmarshal(r["spec"], &s)
+		return ev.VerifBlockParameters(&s)
 	}
 	ops["exec_type"] = func(r req) any {
 		var s me.VerifExecTypeSpec
